@@ -21,7 +21,7 @@ RULE = (
     "executable sections and a sections list selecting a proper non-empty subset; distinct by (object bytes, sections list)."
 )
 ASSUMPTIONS = ["objdump 2.40 on PATH is the disassembler JASM invokes and the harness invokes", "cases run back to back in one process per shard, so stale section state from an earlier rule is exercised too"]
-FLOORS = {"sections=absent": 0.1, "sections=one": 0.1, "sections=several": 0.1, "sections=mix": 0.08, "sections=only-absent": 0.05, "sections=nonexec": 0.03, "proper-subset": 0.15, "container=coff": 0.05, "container=thin-ar": 0.05, "container=ar": 0.05}
+FLOORS = {"sections=absent": 0.1, "sections=one": 0.1, "sections=several": 0.1, "sections=mix": 0.08, "sections=only-absent": 0.05, "sections=nonexec": 0.03, "proper-subset": 0.15, "container=coff": 0.025, "container=thin-ar": 0.025, "container=ar": 0.025}
 
 
 def budget(tier):
